@@ -298,6 +298,7 @@ class Ctx:
     def prove(self, prop_v: str, extra_targets=()):
         """regenerate Gen, build the property's closure, audit, Print Assumptions.
         Returns True when every obligation is discharged; on failure records proof_broken."""
+        self.coq.lock()   # before regenerating: another check may be rewriting coq/Gen from another tree
         rep = self.coq.regenerate()
         self.extra["generated"] = rep
         files = self.coq.closure(prop_v)
